@@ -11,7 +11,7 @@ from mc.refs import codec
 ID = "C20"
 LEVEL = "exploration"
 EXHAUSTIVE = True
-RULE = ("phys: integer type x factor {1,2,10,0.1,0.001,0.5,-1,-0.25,3,1/3} x raw boundary value x offset {0,+-0.25,+-0.49} "
+RULE = ("phys: integer type x factor {1,2,10,0.1,0.001,0.5,-1,-0.25,3,1/3,2.5e-7,1e-9,-3e-8,1e6,12345.678} x raw boundary value x offset {0,+-0.25,+-0.49} "
         "steps; desc: tables of 1, 2, 20 entries (one description a prefix of another); bits: every contiguous range "
         "[lo,hi) within 32 bits (528) x spelling {int, ascending list, descending list, tuple, slice lo:hi, slice lo:hi:1, "
         "defined name} x field value {0,1,max,alternating} x base raw {0, all ones, A5A5A5A5}; each on an SDO and a PDO "
@@ -22,7 +22,7 @@ ASSUMPTIONS = [
     "requested physical values are generated so that the nearest raw value lies in the type's range",
     "the physical view is defined over Python floats: raw or physical magnitudes above 2^52 are outside the claim (counted as excluded)",
 ]
-FACTORS = [1, 2, 10, 0.1, 0.001, 0.5, -1, -0.25, 3, 1 / 3]
+FACTORS = [1, 2, 10, 0.1, 0.001, 0.5, -1, -0.25, 3, 1 / 3, 2.5e-7, 1e-9, -3e-8, 1e6, 12345.678]
 SDO_TYPES = codec.INT_TYPES
 PDO_TYPES = ["UNSIGNED8", "INTEGER16", "UNSIGNED32", "INTEGER32"]
 
